@@ -192,6 +192,9 @@ def run(ck, prog, tier, load):
             ck.ob("C04-b.linger-timer-armed", "ensure_linger_timer", ok, elt, bb, "returns true only with the shutdown timer active (already, or set_and_init(cx, ..) just now)")
 
     timer_polls_observed(ck, prog, "C04-b")
+    # the request-body reader's Pending: the channel stores the waker of the task that polled last (shared with C07-d)
+    from .c07 import register_impl
+    register_impl(ck, prog, "C04-b")
 
     # ---- (c) shutdown chain ---------------------------------------------------
     ops = flag_ops(poll)
